@@ -179,7 +179,10 @@ func (t DeployTransition) do(env *Environment) (err error) {
 
 		return*/
 
-	notifyStatus := make(chan task.Status)
+	// Capacity 1, and the loop below reads the workflow's status itself whenever it is woken: the adapter notifies with a
+	// non-blocking send, so on an unbuffered channel a change that came while we were not at the receive was dropped
+	// (and "workflow is ACTIVE" is sent only once). One pending token is enough, the status read is always the latest.
+	notifyStatus := make(chan task.Status, 1)
 	subscriptionId := uuid.NewUUID().String()
 	env.wfAdapter.SubscribeToStatusChange(subscriptionId, notifyStatus)
 	defer env.wfAdapter.UnsubscribeFromStatusChange(subscriptionId)
@@ -224,7 +227,8 @@ func (t DeployTransition) do(env *Environment) (err error) {
 	WORKFLOW_ACTIVE_LOOP:
 		for {
 			select {
-			case wfStatus = <-notifyStatus:
+			case <-notifyStatus:
+				wfStatus = wf.GetStatus()
 				log.WithField("status", wfStatus.String()).
 					WithField("partition", env.Id().String()).
 					Debug("workflow status change")
